@@ -195,18 +195,28 @@ mod imp {
 
     type LineShape = (usize, i32, u8, Vec<(i32, Option<u64>)>);
     const LINE_KEYS: [u64; 2] = [0x9E37_79B9_7F4A_7C15, 2];
-    /// (depth, value, bound type, [(value, move bits) per ply]): every bound type with and without a
-    /// move in the stored line, lines of one to three plies
+    /// (depth, value, bound type, [(value, move bits) per ply]): the product of two depths, two values,
+    /// the three bound types and three lines (a bare leaf, a line of three plies with moves, a line of
+    /// one ply with another move) — 36 shapes, so that two stores under one key can agree in any subset
+    /// of the fields and differ in the rest
     fn line_shapes() -> Vec<LineShape> {
         let (m1, m2, m3) = (0x0000_0000_0012_3456u64, 0x0000_00ff_0065_4321u64, 0x7000_0000_0000_0001u64);
-        vec![
-            (2, 10, 0, vec![(10, Some(m1)), (-10, Some(m2)), (10, None)]),
-            (3, -5, 2, vec![(-5, None)]),
-            (1, 7, 1, vec![(7, Some(m3))]),
-            (4, 3, 2, vec![(3, Some(m2)), (-3, None)]),
-            (0, 0, 0, vec![(0, None)]),
-            (6, -40, 1, vec![(-41, None)]),
-        ]
+        let mut v = Vec::new();
+        for depth in [1usize, 4] {
+            for value in [10i32, -5] {
+                for bound in 0..3u8 {
+                    for line in 0..3 {
+                        let l = match line {
+                            0 => vec![(value, None)],
+                            1 => vec![(value, Some(m1)), (-value, Some(m2)), (value, None)],
+                            _ => vec![(value + 1, Some(m3))],
+                        };
+                        v.push((depth, value, bound, l));
+                    }
+                }
+            }
+        }
+        v
     }
     fn line_ops_text(hist: &[usize]) -> Vec<String> {
         let n = line_shapes().len();
@@ -414,15 +424,15 @@ mod imp {
             });
         }
         // the same object with entries that carry whole LINES (a value and a move per ply, as the search
-        // stores them): every operation sequence up to depth 4 (5) over 2 keys x 6 entry shapes — every
-        // bound type with and without a move in the stored line, lines of 0..3 plies — + clear; after
+        // stores them): every operation sequence up to depth 3 (4) over 2 keys x 36 entry shapes — two
+        // depths x two values x three bound types x three lines — + clear; after
         // every operation each key must give back exactly the entry stored last under it, line included
         // (the search plays the stored line's move and returns its value on a table hit)
         let line_steps = AtomicU64::new(0);
         {
             use inkayaku_engine_core::verif::SearchTable;
             let n_ops = LINE_KEYS.len() * line_shapes().len() + 1;
-            let depth = if tier == Tier::Quick { 4 } else { 5 };
+            let depth = if tier == Tier::Quick { 3 } else { 4 };
             let firsts: Vec<usize> = (0..n_ops).collect();
             par_map(&firsts, |&f| {
                 let mut t = SearchTable::new();
@@ -531,7 +541,7 @@ mod imp {
         cov.set("capacity_sweep", json!({"capacities": caps_swept, "operations": sweep_ops.load(std::sync::atomic::Ordering::Relaxed), "secs": t1.elapsed().as_secs_f64(), "history": "capacity+5 distinct puts, lookups of the first / last / power-of-two keys, overwrites in the full table, clear"}));
         cov.set("declared_capacity_probe", json!({"capacities": declared.len(), "largest": declared.last(), "operations": probe_ops.load(std::sync::atomic::Ordering::Relaxed), "secs": declared_secs, "history": "min(capacity+3, 3000) distinct puts; len, reported fill level against entries / configured capacity, oldest key still present"}));
         cov.set("search_table_histories", json!({"what": "the transposition table object a Search owns, through the TranspositionTable trait", "histories": wrapper_steps.load(std::sync::atomic::Ordering::Relaxed), "keys": 3, "entry_shapes": 3, "secs": wrapper_secs}));
-        cov.set("search_table_line_histories", json!({"what": "entries that carry whole lines (value and move per ply), every bound type with and without a move", "histories": line_steps.load(std::sync::atomic::Ordering::Relaxed), "keys": 2, "entry_shapes": 6}));
+        cov.set("search_table_line_histories", json!({"what": "entries that carry whole lines (value and move per ply), every bound type with and without a move", "histories": line_steps.load(std::sync::atomic::Ordering::Relaxed), "keys": 2, "entry_shapes": 36}));
         cov.set("unrolled_histories_without_dedup", json!({"capacity": ucap, "depth": udepth, "histories": unrolled, "secs": t0.elapsed().as_secs_f64()}));
         cov.set("explanation", json!("reachable state space of the real table (deduplicated on its own queue+map contents) explored to fixpoint for each capacity with capacity+2 keys and 2 values; the table only compares keys for equality, so capacity+2 keys let 'present', 'evicted and re-inserted' and 'never seen' coexist"));
         cov.samples = SAMPLES.lock().unwrap().clone();
